@@ -163,6 +163,8 @@ template<typename A>
 HllArray<A>* HllArray<A>::newHll(std::istream& is, const A& allocator) {
   uint8_t listHeader[8];
   read(is, listHeader, 8 * sizeof(uint8_t));
+  if (!is.good())
+    throw std::runtime_error("error reading from std::istream");
 
   if (listHeader[hll_constants::PREAMBLE_INTS_BYTE] != hll_constants::HLL_PREINTS) {
     throw std::invalid_argument("Incorrect number of preInts in input stream");
@@ -202,13 +204,17 @@ HllArray<A>* HllArray<A>::newHll(std::istream& is, const A& allocator) {
 
   const auto numAtCurMin = read<uint32_t>(is);
   const auto auxCount = read<uint32_t>(is);
+  if (!is.good())
+    throw std::runtime_error("error reading from std::istream");
   if (auxCount > 0 && tgtHllType != HLL_4) {
     throw std::invalid_argument("Auxiliary hash map in an image that is not HLL_4");
   }
   sketch->putNumAtCurMin(numAtCurMin);
   
   read(is, sketch->hllByteArr_.data(), sketch->getHllByteArrBytes());
-  
+  if (!is.good())
+    throw std::runtime_error("error reading from std::istream");
+
   if (auxCount > 0) { // necessarily TgtHllType == HLL_4
     uint8_t auxLgIntArrSize = listHeader[4];
     AuxHashMap<A>* auxHashMap = AuxHashMap<A>::deserialize(is, lgK, auxCount, auxLgIntArrSize, comapctFlag, allocator);
